@@ -5,6 +5,7 @@ import (
 	"sort"
 	"strconv"
 	"strings"
+	"time"
 
 	astisub "github.com/asticode/go-astisub"
 )
@@ -145,7 +146,9 @@ func (g graph) build() *astisub.Subtitles {
 		}
 		var ln astisub.Line
 		for j, r := range gi.runs {
-			ln.Items = append(ln.Items, astisub.LineItem{Text: "t", Style: b.style(r, 0), InlineStyle: &astisub.StyleAttributes{SRTBold: true}})
+			// every run has its own text and its own in-cue instant (WebVTT inline timestamp): operations on styles leave both alone
+			ln.Items = append(ln.Items, astisub.LineItem{Text: "t" + strconv.Itoa(j), StartAt: time.Duration(i*10+j) * 100 * time.Millisecond,
+				Style: b.style(r, 0), InlineStyle: &astisub.StyleAttributes{SRTBold: true}})
 			if j%2 == 1 {
 				it.Lines = append(it.Lines, ln)
 				ln = astisub.Line{VoiceName: "v"}
@@ -254,8 +257,12 @@ func randGraph(r *rng, withItems bool, twins bool) graph {
 		}
 	}
 	nr := r.intn(5)
+	rp := "r"
+	if r.chance(1, 4) { // regions and styles are separate identifier spaces: the same names may occur in both
+		rp = "s"
+	}
 	for i := 0; i < nr; i++ {
-		d := gDef{key: "r" + strconv.Itoa(i), id: "r" + strconv.Itoa(i), chain: ref(), tag: r.intn(3)}
+		d := gDef{key: rp + strconv.Itoa(i), id: rp + strconv.Itoa(i), chain: ref(), tag: r.intn(3)}
 		if r.chance(1, 30) {
 			d.key = "k" + d.key
 		}
@@ -269,7 +276,7 @@ func randGraph(r *rng, withItems bool, twins bool) graph {
 		for i := 0; i < ni; i++ {
 			it := gItem{style: ref()}
 			if r.chance(1, 2) {
-				it.region = "r" + strconv.Itoa(r.intn(nr+1))
+				it.region = rp + strconv.Itoa(r.intn(nr+1))
 			}
 			for j := r.intn(4); j > 0; j-- {
 				it.runs = append(it.runs, ref())
